@@ -2,7 +2,7 @@
 import json
 from gen import common, xpoll, sysattr, btcp, ux, framing
 
-LEAN_MODULE = ["XcmModel.Props.C16", "XcmModel.Props.Utls"]
+LEAN_MODULE = ["XcmModel.Props.C16", "XcmModel.Props.Utls", "XcmModel.Props.Timer"]
 THEOREMS = [
     "XcmModel.Xpoll.kinv_fdRegMod", "XcmModel.Xpoll.kinv_fdRegAdd", "XcmModel.Xpoll.kinv_fdRegDel",
     "XcmModel.Xpoll.updateActive_post", "XcmModel.C16.reach_good",
@@ -12,6 +12,7 @@ THEOREMS = [
     "XcmModel.C16.C16_server_events", "XcmModel.C16.C16_ux_events",
     "XcmModel.UtlsProps.C04_utls_condition_passed_down",
     "XcmModel.C16btls.C16_btls_idle_silent", "XcmModel.C16btls.C16_btls_idle_flush_only", "XcmModel.C16btls.C16_btls_blocked_send_is_accepted", "XcmModel.C16btls.C16_btls_quiet_after_eagain", "XcmModel.C16btls.C16_btls_quiet_after_eagain_retained", "XcmModel.C16btls.C16_btls_bell_reason",
+    "XcmModel.TimerProps.timer_inv_run", "XcmModel.TimerProps.C16_timer_quiet", "XcmModel.TimerProps.C16_no_timers_quiet", "XcmModel.TimerProps.C16_wakeup_confirmed",
 ]
 
 
@@ -174,6 +175,10 @@ def run(ctx):
     _btls.run_part(ctx, 10 if ctx.tier == "quick" else 300, exhaustive=True)
     ctx.rule += (" unit_btls: the real xcm_tp_btls.c with scripted OpenSSL answers vs the Lean Btls model: every OpenSSL event x first observer x state x verdict, conn_update for every reachable (state, ssl_condition, ssl_wants) x condition x SSL_has_pending, seeded random histories; stickiness/discoverer/rc-range/gating monitors.")
 
+    # the timer manager behind connect timeouts, the Happy Eyeballs delay and dns.timeout
+    from gen import timer as _timer
+    _timer.run_part(ctx, 40 if ctx.tier == "quick" else 1500, label="c16timer")
+    ctx.rule += " unit_timer: the real timer_mgr.c (scripted clock, recorded timerfd_settime, K-timerfd probed on the real kernel) vs the Lean TimerMgr model on every short two-user history and on random histories with stale ids; monitor: the timerfd is always armed at the earliest live deadline, ids are never reused, a cancel removes exactly the timer named."
 
 def replay(path):
     r = json.load(open(path))
